@@ -73,6 +73,13 @@ def generate(rng, prop, tier):
     pool = pool[:8]
     if km.get('enc'):
         pool = pool[:6] + ['price 5 \u20ac', '\u03b1\u03b2']        # text outside latin-1 / cp1252
+    tol = deep = None
+    if rng.chance(0.15) and not (kind == 'pickle' and arg == 'json') and fn in ('f1', 'f2', 'f3', 'f6', 'f9'):
+        # rounding configured: keys must not depend on what ELSE the process rounded before (signed zeros,
+        # floats equal after rounding)
+        tol, deep = rng.choice([0, 1, 2]), rng.chance(0.7)
+        # (deep rounding rebuilds dicts through **kwds: dict arguments with non-string keys are not its domain)
+        pool = [q for q in pool if not (isinstance(q, dict) and '$d' in q)][:5] + [0.0, {'$f': '-0.0'}, 2.5, {'$t': [0.0, 1.5]}, {'$t': [{'$f': '-0.0'}, 1.5]}]
     calls = []
     for _ in range(rng.randint(3, 12)):
         c = M.logical_call(rng, fn, [dec(p) for p in pool], True)
@@ -85,6 +92,9 @@ def generate(rng, prop, tier):
                                    'subdir': rng.chance(0.3),
                                    'sibling_first': rng.chance(0.3),
                                    'failed_call_first': rng.chance(0.3),
+                                   # another rounding cached function saw these floats first in this session
+                                   'rounded_first': ([rng.choice([0.0, {'$f': '-0.0'}, 2.5]) for _ in range(rng.randint(1, 2))]
+                                                     if tol is not None and rng.chance(0.7) else []),
                                    'other_first': [rng.choice(POOL_HASHABLE[:10]) for _ in range(rng.randint(0, 3))]}})
     # ignore specifications: the names _keygen substitutes for ignored arguments must not make the key depend
     # on the session (iteration order of a set of names is hash-seed dependent)
@@ -96,7 +106,7 @@ def generate(rng, prop, tier):
                   't2': [['t', 'T'], ['T', 't', 'x'], ['T']]}.get(fn)
         ignore = rng.choice(ignore) if ignore else None
     return {'engine': 'sessions', 'prop': prop, 'backend': B.config(label, 'k0'), 'keymap': km, 'fn': fn,
-            'ignore': ignore,
+            'ignore': ignore, 'tol': tol, 'deep': deep,
             'module': rng.choice(['std', 'safe']), 'algo': rng.choice(['inf', 'lru']),
             'ops': calls, 'sessions': sessions}
 
@@ -124,7 +134,7 @@ def execute(case, prop, ctx):
         noise['cwd'] = os.path.join(root, 'sub') if noise.pop('subdir', False) else root
         job = {'root': root, 'backend': case['backend'], 'keymap': case['keymap'], 'fn': case['fn'],
                'module': case['module'], 'algo': case['algo'], 'calls': calls, 'noise': noise,
-               'ignore': case.get('ignore'),
+               'ignore': case.get('ignore'), 'tol': case.get('tol'), 'deep': case.get('deep'),
                'klepto_root': os.environ.get('VERIF_KLEPTO_ROOT')}
         env = dict(os.environ)
         env['PYTHONHASHSEED'] = str(sess['hashseed'])
